@@ -1,4 +1,5 @@
 import RavenModel.Model.Plan
+import RavenModel.Gen.Facts
 import RavenModel.Model.Interleave
 /-! # C08 — concurrent sessions never lose, duplicate or mix up messages -/
 namespace Raven.Props.C08
@@ -88,5 +89,50 @@ theorem plan_open_deletes_nothing :
       Raven.Plan.before (Raven.Plan.idx (b!"call db.userDBInitialized") (Raven.Plan.trace f))
         (Raven.Plan.idx (b!"call db.DBManager.initUserDB") (Raven.Plan.trace f))) = true := by
   decide
+
+/-! ## moving a message between mailboxes (the Junk / NonJunk keywords) from several sessions at once -/
+
+/-- one link in the source mailbox, `dst` links in the destination -/
+structure MoveSt where
+  src : Bool
+  dst : Nat
+deriving DecidableEq, Repr
+
+/-- a session that found the message in the source mailbox and now runs its move transaction (the transactions of one store
+are serialised): the repaired one files the message only if it has just removed it from the source, the old one filed it
+whatever its DELETE removed -/
+inductive MoveEv where | checked | unchecked
+deriving DecidableEq, Repr
+
+def moveStep (s : MoveSt) : MoveEv → MoveSt
+  | .checked => if s.src then { src := false, dst := s.dst + 1 } else s
+  | .unchecked => { src := false, dst := s.dst + 1 }
+
+def moveCopies (s : MoveSt) : Nat := (if s.src then 1 else 0) + s.dst
+
+/-- C08.x  however many sessions move one message at once and in whatever order their transactions run, it is there exactly
+once — in the source or in the destination — when each move checks that it removed what it files. -/
+theorem concurrent_moves_keep_one_copy (es : List MoveEv) (h : ∀ e ∈ es, e = .checked) :
+    moveCopies (es.foldl moveStep { src := true, dst := 0 }) = 1 := by
+  suffices ∀ (s : MoveSt), moveCopies s = 1 → moveCopies (es.foldl moveStep s) = 1 from this _ rfl
+  induction es with
+  | nil => intro s hs; exact hs
+  | cons e es ih =>
+    intro s hs
+    have he : e = .checked := h e (List.mem_cons_self ..)
+    subst he
+    apply ih (fun x hx => h x (List.mem_cons_of_mem _ hx))
+    cases hsrc : s.src
+    · simpa [moveStep, hsrc] using hs
+    · simp only [moveCopies, hsrc, if_true] at hs
+      have hd : s.dst = 0 := by omega
+      simp [moveStep, hsrc, moveCopies, hd]
+
+/-- …and twice after two moves that do not check (the defect repaired in aa5a0f9: two sessions adding Junk to one message) -/
+theorem unchecked_moves_duplicate :
+    moveCopies ([MoveEv.unchecked, MoveEv.unchecked].foldl moveStep { src := true, dst := 0 }) = 2 := by decide
+
+/-- the code is the checked machine (regenerated from /repo on every run): the move consults `RowsAffected` of its DELETE -/
+theorem move_checks_what_it_removed : Raven.Gen.moveChecks = [((b!"message.MoveMessageToMailbox"), true)] := by decide
 
 end Raven.Props.C08
